@@ -50,6 +50,20 @@ Example C08_both_ends :
   nconf ex_err_callee_bad = Some 1 /\ nconf ex_err_overwritten = Some 1.
 Proof. exact err_convention_both_ends. Qed.
 
+(* direct forwarding `return g(args)`: the callee's result site feeds the forwarder's (so a callee that returns
+   (nil, nil) is reported through any chain of forwarders) and a forwarder is never "always safe" *)
+Theorem C08_forwarding_triggers : forall ng ctr sp f fuel e cs g args,
+  exists r, analyze ng ctr sp f fuel (SRetCall cs g args) e = Some r /\
+            In (mk_trigger 0 (PSite (SResult g)) (CSite (SResult f))) (a_trig r) /\ a_rsafe r = false /\ a_env r = None.
+Proof. exact retcall_triggers. Qed.
+Print Assumptions C08_forwarding_triggers.
+
+Example C08_forwarding :
+  nconf ex_fwd_ok = Some 0 /\ nconf ex_fwd_bad = Some 1 /\
+  panic_of (run_program ex_fwd_bad 20 [true]) = Some 1 /\
+  (forall o, In o [[true]; [false]] -> panic_of (run_program ex_fwd_ok 20 o) = None).
+Proof. exact err_forwarding. Qed.
+
 (* non-vacuity of the soundness theorem, and the reported programs do panic *)
 Example C08_example :
   exists r res, analyze_program 8 no_ctr one_pkg ex_err_checked = Some r /\ r_gsafe r = true /\ r_clocal r = true /\
